@@ -173,6 +173,23 @@ example : value .asIs (.distancevel 0 1 true) exSys = .ok [3 / 2, 21 / 16] ∧
     value .asIs (.distancevel 0 1 true) (reverseVel exSys) = .ok [-3 / 2, 21 / 16] := by
   constructor <;> decide +kernel
 
+/-- **`calculate_order` and the `vel_rev` flag.** With the flag set, the engine hands the order
+    parameter the negated velocities: velocity-type results are the negatives of the flag-off
+    results, position-type results are identical (both routes of `calculate_order` run the same
+    statements after the arrays are known, so this is one statement). -/
+theorem calculateOrder_vel_rev (var : Variant) (op : OP) (box0 : Option (List ℚ)) (xyz vel : List V3)
+    (box : Option (List ℚ)) :
+    (calculateOrder var op true box0 xyz vel box).1 =
+      if op.velocityDependent then (calculateOrder var op false box0 xyz vel box).1.map negHead
+      else (calculateOrder var op false box0 xyz vel box).1 := by
+  have h := velocity_reversal_sign var op
+    { pos := xyz, vel := vel, box := match box with | some b => some b | none => box0 }
+  simpa [calculateOrder, calculate, reverseVel] using h
+
+example : (calculateOrder .asIs (.velocity 1 1) true none exSys.pos exSys.vel exSys.box).1 = .ok [-1] ∧
+    (calculateOrder .asIs (.velocity 1 1) false none exSys.pos exSys.vel exSys.box).1 = .ok [1] := by
+  constructor <;> decide +kernel
+
 /-! ### 3- and 9-component boxes -/
 
 /-- **3- vs 9-component boxes, repaired variant** (`Distancevel` slicing `box[:3]` like the other
